@@ -513,6 +513,12 @@ func sameValue(a, b ssa.Value) bool {
 		if ca != nil && ca == cb {
 			return true
 		}
+		// two loads of the element under the same loop index
+		if ia, isA := ua.X.(*ssa.IndexAddr); isA {
+			if ib, isB := ub.X.(*ssa.IndexAddr); isB && ia.Index == ib.Index && isRangeIndex(ia.Index) && sameValue(ia.X, ib.X) {
+				return true
+			}
+		}
 	}
 	return false
 }
